@@ -280,6 +280,71 @@ Definition recv_seq_bump (s : Z) : M Z := ret ((s + 1) mod 65536).              
 Fixpoint recv_seq_run (bump : Z -> M Z) (n : nat) (s : Z) : M Z :=
   match n with O => ret s | S k => s' <- bump s ;; recv_seq_run bump k s' end.
 
+(* ---------------------------------------------------------------- fragment reassembly (dtls/mod.rs) *)
+(* process_handshake_payload, for a message with the expected message_seq: a message whose
+   total_length equals its fragment_length is taken as is; otherwise the body is appended to
+   `incomplete_handshake` (cleared when the message_seq changes or the fragment claims offset 0;
+   the offset is otherwise ignored) and the message is complete as soon as the buffer is at least
+   total_length long -- the WHOLE buffer becomes the body, re-encoded with a 12-byte header.
+   Allocation: the bytes appended, plus header + buffer on completion.  No capacity is reserved
+   from the declared total_length (anchored in gen_c07.py): [alloc] would have to count it. *)
+Record frag := mkFrag { f_total : Z; f_seq : Z; f_off : Z; f_body : bytes }.
+Record reasm := mkReasm { r_buf : bytes; r_seq : Z }.
+Definition reasm_init : reasm := mkReasm [] 0.
+
+Definition reasm_step (st : reasm) (f : frag) : M (option bytes * reasm) :=
+  if f_total f =? len (f_body f) then ret (Some (f_body f), st) else
+  let buf0 := if negb (r_seq st =? f_seq f) || (f_off f =? 0) then [] else r_buf st in
+  alloc (len (f_body f)) ;;;                                          (* extend_from_slice *)
+  tick (1 + len (f_body f)) ;;;
+  let buf := buf0 ++ f_body f in
+  if len buf <? f_total f then ret (None, mkReasm buf (f_seq f))
+  else (alloc (HS_HEADER_SIZE + len buf) ;;; tick (1 + len buf) ;;; ret (Some buf, mkReasm [] (f_seq f))).
+
+(* a run of fragments that all carry the expected message_seq, up to the first completed message *)
+Fixpoint reasm_run (st : reasm) (fs : list frag) : M (option bytes * reasm * list frag) :=
+  match fs with
+  | [] => ret (None, st, [])
+  | f :: rest =>
+      ' (r, st') <- reasm_step st f ;;
+      match r with
+      | Some body => ret (Some body, st', rest)
+      | None => reasm_run st' rest
+      end
+  end.
+(* the whole history of fragments an endpoint receives (completed messages are handed on, the buffer restarts) *)
+Fixpoint reasm_fold (st : reasm) (fs : list frag) : M reasm :=
+  match fs with
+  | [] => ret st
+  | f :: rest => ' (_, st') <- reasm_step st f ;; reasm_fold st' rest
+  end.
+Definition frags_bytes (fs : list frag) : Z := fold_right (fun f a => len (f_body f) + a) 0 fs.
+
+(* what a fresh server does with a list of ClientHello fragments (all message_seq 0): the first completed
+   message is decoded; if that fails the receive counter has moved on and every later fragment is a
+   "duplicate ClientHello", handed to handle_client_hello as it is *)
+Fixpoint dup_mode (fs : list frag) : M (Z * Z) :=
+  match fs with
+  | [] => err 20
+  | f :: rest =>
+      let m := server_on_client_hello (f_body f) in
+      match val m with
+      | Err _ => mkM (val (dup_mode rest)) (ticks m + ticks (dup_mode rest)) (allocd m + allocd (dup_mode rest))
+      | _ => m
+      end
+  end.
+Definition server_on_fragments (fs : list frag) : M (Z * Z) :=
+  ' (r, _, rest) <- reasm_run reasm_init fs ;;
+  match r with
+  | None => err 21
+  | Some body =>
+      let m := server_on_client_hello body in
+      match val m with
+      | Err _ => mkM (val (dup_mode rest)) (ticks m + ticks (dup_mode rest)) (allocd m + allocd (dup_mode rest))
+      | _ => m
+      end
+  end.
+
 (* ---------------------------------------------------------------- digests for the correspondence *)
 Definition bdig (b : bytes) : list Z := len b :: b.
 Definition verdict {A} (r : res A) : Z :=
